@@ -14,11 +14,10 @@ while IFS=$'\t' read -r f props; do
   echo "/verif/mutants/$f $props -R" >> $list
 done < /verif/mutants/PROPS.tsv
 cat $list | xargs -P $jobs -L 1 sh -c 'n=$(echo $0 | tr "/" "_"); MUTEST_LINES=2 /verif/tools/mutest.sh $0 $1 $2 > '$out'/$n.out 2>&1'
-det=0; miss=0
 for f in $out/*.out; do
   l=$(grep '^MUTEST:' $f | tail -1)
-  case "$l" in *DETECTED*) det=$((det+1));; *) miss=$((miss+1)); esac
   echo "$l :: $(grep -v '^MUTEST' $f | head -1 | cut -c1-160)"
-done | sort
-echo "mutants detected: $det  missed: $miss"
+done | sort > $out/summary.txt
+cat $out/summary.txt
+echo "mutants detected: $(grep -c 'MUTEST: DETECTED' $out/summary.txt)  missed: $(grep -c 'MUTEST: MISSED' $out/summary.txt)  other: $(grep -vc 'MUTEST: \(DETECTED\|MISSED\)' $out/summary.txt)"
 rm -rf $out
